@@ -28,7 +28,7 @@ CHECKS = {
     "C08": (True, "SSA dominance rules on the reader loop: error latch, no read after error, sticky error, read count used unconditionally, same machine, two-pass order",
             "Necessary conditions of streaming≡in-memory: the reader is never consulted after it reported an error/EOF, the stored error is never replaced and is what NextBlock returns, bytes returned together with an error are kept, Parse uses NextBlock as its only splitter with the same line-counter initialisation, Extract precedes Rewrite. Tree equality under arbitrary chunking is arithmetic over buffer contents and is not decided.",
             "go/ssa dominators; helper arithmetic trusted"),
-    "C10": (False, "per-kind outcome tables of the renderer callbacks (HTX-KIND/PAIR) against the documented mapping, text provenance, write-effect analysis of the read path, block-join provenance",
+    "C10": (True, "per-kind outcome tables of the renderer callbacks (HTX-KIND/PAIR) against the documented mapping, text provenance, write-effect analysis of the read path, block-join provenance",
             "Structural parts of canonical serialisation: for every node kind and configuration the sequence of tags/constants/dynamic classes emitted equals the documented mapping and pre/post are paired; dynamic text comes from the visited node's accessors and is escaped; rendering writes only call-local memory and has no nondeterminism source; Render joins AppendBlock results with the blank-line separator in slice order. Byte-for-byte equality with an independent serialiser is not decided.",
             "oracle tables transcribed from doc comments and the CommonMark HTML mapping; EFF external-callee table"),
     "C11": (True, "data-dependence rule on the opener-search cache key (EMPH-K) and saved-index staleness path rule (EMPH-S)",
